@@ -22,14 +22,14 @@ Theorem C09_key : forall pe ex opt mw s, roundtrip pe ex TyKey opt mw (VStr s).
 Proof. exact rt_key. Qed.
 Print Assumptions C09_key.
 
-(* path: under the hypothesis that expanduser only touches texts that start with a tilde *)
+(* path: under the hypothesis that expanduser neither changes nor refuses a text that does not start with a tilde *)
 Theorem C09_path : forall pe ex opt mw s,
   expanduser_spec ex -> prefixb ["~"] s = false -> roundtrip pe ex TyPath opt mw (VStr s).
 Proof. exact rt_path. Qed.
 Print Assumptions C09_path.
 
 (* F8: a path starting with a tilde is expanded on extraction *)
-Theorem C09_refuted_path_tilde : forall pe ex opt mw, ex ["~"] <> ["~"] ->
+Theorem C09_refuted_path_tilde : forall pe ex opt mw, ex ["~"] <> Some ["~"] ->
   exists ws, ty_as_words TyPath opt mw (VStr ["~"]) = Ok ws /\ ty_from_words pe ex TyPath opt ws <> Ok (VStr ["~"]).
 Proof. exact path_tilde_refuted. Qed.
 Print Assumptions C09_refuted_path_tilde.
@@ -67,6 +67,13 @@ Theorem C09_refuted_qstr_blanks : forall pe ex opt mw,
                /\ ty_from_words pe ex TyQstr opt ws = Ok (VStr (s_ "a b")) /\ s <> s_ "a b".
 Proof. exact qstr_blanks_refuted. Qed.
 Print Assumptions C09_refuted_qstr_blanks.
+
+(* a text that os.path.expanduser refuses (oracle answer None: ValueError, e.g. a NUL byte after the tilde) is written as
+   it is and refused on extraction with the user error PathRefused (repaired in 65aa99d) *)
+Theorem C09_path_refusal_is_user_error : forall pe ex opt mw s, ex s = None ->
+  ty_as_words TyPath opt mw (VStr s) = Ok [qw s] /\ ty_from_words pe ex TyPath opt [qw s] = UErr (s_ "PathRefused") s 0.
+Proof. exact (fun pe ex opt mw s H => conj eq_refl (path_refusal_is_user_error pe ex opt s H)). Qed.
+Print Assumptions C09_path_refusal_is_user_error.
 
 (* ------------------------------------------------------------------ bool, int, ints *)
 Theorem C09_bool : forall pe ex opt mw b, roundtrip pe ex TyBool opt mw (VNum (Conv.NBool b)).
@@ -228,7 +235,7 @@ Definition ex_master : obj :=
 Definition ex_value : pyval :=
   VScope (Ext [] [(s_ "a", VNum (Conv.NInt 7));
                   (s_ "s", VScope (Ext (s_ "s") [(s_ "b", VStr (s_ "q""r")); (s_ "d", VList [VStr (s_ "q")])]))]).
-Example C09_scope_example : wf_nm ex_master /\ pdom (fun _ => None) (fun s => s) ex_master ex_value.
+Example C09_scope_example : wf_nm ex_master /\ pdom (fun _ => None) (fun s => Some s) ex_master ex_value.
 Proof.
   split.
   - vm_compute.
@@ -240,8 +247,8 @@ Proof.
     split; [apply N2; discriminate|].
     split; [intros _; repeat split|]. split; [intro H; discriminate H|]. split; [intros _; repeat split|exact I].
   - unfold ex_master, ex_value. cbn [pdom active negb odis ohdr plain_hdr kname oname].
-    assert (L : forall m v t, format_obj m v = Ok t -> extract_obj (fun _ => None) (fun s => s) t = Ok v ->
-                exists t, format_obj m v = Ok t /\ extract_obj (fun _ => None) (fun s => s) t = Ok v) by eauto.
+    assert (L : forall m v t, format_obj m v = Ok t -> extract_obj (fun _ => None) (fun s => Some s) t = Ok v ->
+                exists t, format_obj m v = Ok t /\ extract_obj (fun _ => None) (fun s => Some s) t = Ok v) by eauto.
     eexists. split; [reflexivity|]. split; [reflexivity|].
     split; [eapply L; [vm_compute; reflexivity|vm_compute; reflexivity]|].
     split; [reflexivity|]. split; [|reflexivity].
@@ -260,10 +267,10 @@ Definition ex_value_m : pyval :=
                   (s_ "s", VScopeList (ABool true) [VScope (Ext (s_ "s") [(s_ "b", VStr (s_ "p"))]);
                                                     VScope (Ext (s_ "s") [(s_ "b", VStr (s_ "q"))])]);
                   (s_ "c", VScopeList ANone [])]).
-Example C09_scope_multi_example : wf_m ex_master_m /\ pdom_m (fun _ => None) (fun s => s) ex_master_m ex_value_m.
+Example C09_scope_multi_example : wf_m ex_master_m /\ pdom_m (fun _ => None) (fun s => Some s) ex_master_m ex_value_m.
 Proof.
-  assert (L : forall m v t, format_obj m v = Ok t -> extract_obj (fun _ => None) (fun s => s) t = Ok v ->
-              exists t, format_obj m v = Ok t /\ extract_obj (fun _ => None) (fun s => s) t = Ok v) by eauto.
+  assert (L : forall m v t, format_obj m v = Ok t -> extract_obj (fun _ => None) (fun s => Some s) t = Ok v ->
+              exists t, format_obj m v = Ok t /\ extract_obj (fun _ => None) (fun s => Some s) t = Ok v) by eauto.
   split.
   - vm_compute. split.
     + repeat constructor; cbn [In]; intuition discriminate.
